@@ -942,6 +942,10 @@ class ktensor:
             i_min = np.argmin(sum_of_prods) + 1  # note range above starts at 1
             return i_min
 
+        if self.ndims == 1:
+            # A single mode cannot be split into two groups of factors
+            return ttb.tensor(self.factor_matrices[0] @ self.weights, self.shape)
+
         i_split = min_split_dims(self.shape)
         data = (
             ttb.khatrirao(*self.factor_matrices[:i_split], reverse=True) * self.weights
